@@ -6,7 +6,7 @@ cd "$(dirname "$0")"
 if [ ! -f .deps/.ok ]; then
   rm -rf .deps
   PIP_NO_INDEX=1 /venv/bin/python -m pip install -q --no-index --find-links /opt/veriftools/wheels \
-     --target .deps icontract mpmath >/dev/null 2>&1 || {
+     --target .deps icontract mpmath jsonschema >/dev/null 2>&1 || {
        echo "setup: pip install failed" >&2; exit 3; }
   touch .deps/.ok
 fi
